@@ -305,8 +305,8 @@ package parquet
 //@ pred hdrIs(h, p) := h.CompressedPageSize == phComp(srcB, p) && h.DataPageHeader != nil && h.DataPageHeader.NumValues == phNV(srcB, p)
 
 //@ func PageHeadersAtOffset
-//@   requires external(r)
-//@   requires forall u in 0..srcSize + 1: phIsData(srcB, pagePos(srcB, o, u))
+//@   requires external(r) && n >= 0
+//@   requires forall u in 0..9223372036854775808: phIsData(srcB, pagePos(srcB, o, u)) && phNV(srcB, pagePos(srcB, o, u)) >= 0
 //@   safety[C16] nil-deref
 //@   modifies heap("parquet.readCounter"), srcPos, rfault, vPage, vDefs
 //@   ensures[C10] err == nil ==> (rfault ==> old(rfault))
@@ -315,7 +315,7 @@ package parquet
 //@   ensures[C16] err == nil && n <= 0 ==> #res0 == 1
 //@   ensures[C16] err == nil ==> forall u in 0..#res0: hdrIs(res0[u], pagePos(srcB, o, u))
 //@ loop PageHeadersAtOffset#1
-//@   invariant[C16] srcPos == pagePos(srcB, o, #out) && nRead == nvSum(srcB, o, #out) && freshOrNil(out) && #out <= srcSize
+//@   invariant[C16] srcPos == pagePos(srcB, o, #out) && nRead == nvSum(srcB, o, #out) && freshOrNil(out) && nRead >= 0
 //@   invariant[C16] forall u in 0..#out: hdrIs(out[u], pagePos(srcB, o, u))
 //@   invariant[C16] readOne == (n > 0 || #out > 0)
 //@   invariant[C16] (n > 0 && #out > 0 ==> nvSum(srcB, o, #out - 1) < n) && (n <= 0 ==> #out <= 1)
